@@ -11,14 +11,15 @@
 static void* bag[BAGMAX]; static unsigned bag_n;
 static unsigned n_alloc[2], n_free; static unsigned n_live[2];
 static unsigned vp_new_n, vp_new64_n, vp_new512_n;
+static unsigned alloc_kind_hint;
 static unsigned in_arena;       /* is the calling thread a thread of the graph's arena (worker running a task / attached master) */
-static void fg_reset(void) { bag_n = 0; n_alloc[0] = n_alloc[1] = 0; n_free = 0; n_live[0] = n_live[1] = 0; vp_new_n = 0; vp_new64_n = 0; vp_new512_n = 0; in_arena = 0; }
+static void fg_reset(void) { bag_n = 0; n_alloc[0] = n_alloc[1] = 0; n_free = 0; n_live[0] = n_live[1] = 0; vp_new_n = 0; vp_new64_n = 0; vp_new512_n = 0; in_arena = 0; alloc_kind_hint = 0; }
 static int task_kind_of(void* p) {
   for (unsigned i = 0; i < TASKMAX; i++) if (p == (void*)task_mem(0, i)) return 0;
   return 1; }
 /* r1::allocate(small_object_pool*&, size_t): fresh storage (typed, per task type: chosen by the requested size) */
 u8* _ZN3tbb6detail2r18allocateERPNS0_2d117small_object_poolEm(struct S_class_tbb__detail__d1__small_object_pool** pool, u64 n) {
-  unsigned k = (n == task_size(0)) ? 0 : 1;
+  unsigned k = alloc_kind_hint;   /* which typed pool: the driver knows which task type the current operation can create (checked when the task runs) */
   VP_ASSERT(n == task_size(k), "VP bound: task allocation of an unknown task type");
   VP_ASSERT(n_alloc[k] < TASKMAX, "VP bound: more task allocations than the typed task storage");
   n_live[k]++;
@@ -28,7 +29,8 @@ u8* _ZN3tbb6detail2r18allocateERPNS0_2d117small_object_poolEm(struct S_class_tbb
   return task_mem(k, n_alloc[k]++); }
 /* r1::deallocate(small_object_pool&, void*, size_t, const execution_data&) */
 void _ZN3tbb6detail2r110deallocateERNS0_2d117small_object_poolEPvmRKNS2_14execution_dataE(struct S_class_tbb__detail__d1__small_object_pool* pool, u8* p, u64 n, struct S_struct_tbb__detail__d1__execution_data* ed) {
-  unsigned k = (n == task_size(0)) ? 0 : 1;
+  unsigned k = task_kind_of(p);
+  VP_ASSERT(n == task_size(k), "task deallocated with a wrong size");
   VP_ASSERT(n_live[k] > 0, "task deallocated twice / never allocated"); n_live[k]--; n_free++;
 #ifdef VP_ON_FREE
   VP_ON_FREE(p);
